@@ -376,9 +376,9 @@ func TestC26Cluster(t *testing.T) {
 		runProgram(cc.Cluster, tm, cc.StrProf, &cc)
 		return
 	}
-	profs := []string{"ascii", "esc", "bmp", "astral", "mixed"}
+	profs := []string{"ascii", "esc", "bmp", "astral", "mixed", "pct"}
 	if !behav.Thorough() {
-		profs = []string{"ascii", []string{"esc", "bmp", "astral", "mixed"}[int(behav.Seed()%4+4)%4], "mixed"}
+		profs = []string{"ascii", []string{"esc", "bmp", "astral", "mixed"}[int(behav.Seed()%4+4)%4], "mixed", "pct"}
 	}
 	for _, p := range uniq(profs) {
 		runProgram("A", clusterATemplates, p, nil)
